@@ -52,6 +52,7 @@ func runLBCB(x *X) {
 		x.Violate("C08", "C08/blocked{"+e.Kind+","+siteKey(e)+"}", "request processing blocked after a breaker state change: %s", e.Error())
 		x.Violate("C03", "C03/"+e.Kind+"{breaker-state-change}", "%s", e.Error())
 		x.Violate("C12", "C12/"+e.Kind+"{"+siteKey(e)+"}", "%s", e.Error())
+		x.Blocked(e, "lbcb")
 	}
 	var h *lbHarness
 	x.Do("setup", func() { h, _ = newLBHarness(x, net, lbOpts{strategy: strategy, backends: bcs, breaker: &cb}) }, onErr)
@@ -85,7 +86,14 @@ func runLBCB(x *X) {
 	classes := []string{"ok", "s500", "unreach", "abort", "ok", "s404"} // (a 4xx answer is the client's problem: for the breaker the backend worked)
 	doReq := func(class string) (simResult, bool) {
 		var r simResult
-		ok := x.Do("req", func() { r = h.do(reqSpec{client: "192.0.2.1", plan: &reqPlan{mode: class}}) }, onErr)
+		// now and then the backend sends 103 Early Hints before its (good or bad) final answer:
+		// the answer that counts is the final one
+		var interim []int
+		if class != "unreach" && c.Intn(5, "early-hints") == 0 {
+			interim = []int{103}
+			x.Probe("interim-before-final-status")
+		}
+		ok := x.Do("req", func() { r = h.do(reqSpec{client: "192.0.2.1", plan: &reqPlan{mode: class, interim: interim}}) }, onErr)
 		return r, ok
 	}
 	failClasses := func() string {
@@ -244,6 +252,33 @@ func runLBCB(x *X) {
 		}
 	}
 	x.Sample["steps"] = steps
+
+	// ---- biased tail: clients that walk away ---------------------------------
+	// A slow request admitted while the breaker is closed is still waiting for its backend when
+	// the breaker trips and reaches half-open; the client of a half-open trial gives up before the
+	// backend answers, and so does the slow request's client. Neither says anything good about the
+	// backend, and neither may cost the breaker its way back (recovery script below).
+	if !x.dead && x.Want("C08") && c.Intn(4, "abandoned-straggler-and-trial") == 0 {
+		x.Advance(timeout+time.Millisecond, onErr)
+		for k := 0; k < cb.SuccessThreshold+2 && !x.dead; k++ {
+			doReq("ok") // (towards closed, whatever the state was)
+		}
+		s.Spawn("straggler", func() {
+			h.do(reqSpec{client: "192.0.2.7", plan: &reqPlan{mode: "ok", delay: 3*timeout + 5*time.Second}, cancelAfter: timeout + 1500*time.Millisecond})
+		})
+		x.Settle(onErr)
+		for k := 0; k < cb.FailureThreshold && !x.dead; k++ {
+			doReq("s500")
+		}
+		x.Advance(timeout+time.Millisecond, onErr)
+		x.Do("req", func() {
+			h.do(reqSpec{client: "192.0.2.8", plan: &reqPlan{mode: "ok", delay: 5 * time.Second}, cancelAfter: 200 * time.Millisecond})
+		}, onErr)
+		x.Advance(2*time.Second, onErr)
+		x.RunTasks(onErr)
+		x.Fault("client-cancel")
+		x.Probe("abandoned-straggler-and-trial")
+	}
 
 	// ---- C08 (wired): recovery script --------------------------------------
 	if !x.dead && x.Want("C08") && c.Intn(3, "recovery-with-overlapping-traffic") == 0 {
